@@ -7,6 +7,7 @@ assembler; counter boundaries bracket every plausible counter width; multi-file 
 """
 import itertools, re
 from .. import core
+from ..fmt import pfile
 
 ID = 'C02'
 LEVEL = 'model_checking'
@@ -89,11 +90,64 @@ def subspaces(tier):
     ns = [0, 1, 2, 255, 256, 257, 65535, 65536, 65537] + ([131071, 131072] if tier != 'quick' else [])
     cb = [{'k': 'n', 'n': N, 'kind': kind, 'werr': we, 'q': q} for N in ns for kind in ('err', 'warn') for we in (0, 1) for q in (0, 1)]
     subs.append(('b:counter-boundaries', cb))
-    fk = ['clean', 'warn', 'fail', 'fatal']
+    fk = ['clean', 'warn', 'fail', 'fatal', 'jfail', 'repass', 'shift']
     fl = 2 if tier == 'quick' else 3
-    mf = [{'k': 'f', 'files': list(s), 'werr': we} for ln in range(1, fl + 1) for s in itertools.product(fk, repeat=ln) for we in (0, 1)]
+    mf = [{'k': 'f', 'files': list(s), 'werr': we, 'o': om} for ln in range(1, fl + 1) for s in itertools.product(fk, repeat=ln) for we in (0, 1)
+          for om in ('none', 'first', 'all') if not (om == 'first' and ln == 1)]
     subs.append(('c:file-sequences<=%d' % fl, mf))
+    subs.append(('d:branch-distance-programs', list(jprogs(tier))))
     return subs
+
+
+# (d) programs whose branch errors are "questionable" (the label behind them moves in the same pass): whatever the assembler
+# decides about such an error, what it REPORTS, what it COUNTS and what it EXITS with must agree
+def jprogs(tier):
+    ns = (40, 60, 64, 70) if tier == 'quick' else (20, 40, 42, 43, 60, 62, 63, 64, 65, 70, 100)
+    for n in ns:
+        for var_first in (0, 1):
+            for back in (0, 1):
+                for tail in ('', 'err', 'warn'):
+                    for opt in ([], ['-Werror'], ['-x'], ['-q']):      # (not -Y: it is documented to print such an error and then forget it)
+                        yield {'k': 'j', 'n': n, 'var_first': var_first, 'back': back, 'tail': tail, 'opt': opt}
+
+
+def ev_j(case):
+    l = ['\tcpu 6811', '\torg $8000']
+    if case['var_first']:
+        l += ['Var\tequ $10']
+    if case['back']:
+        l += ['back:\tnop']
+    l += ['\tbeq skip', '\trept %d' % case['n'], '\tldd Var', '\tendm', 'skip:\tnop']
+    if case['back']:
+        l += ['\tbne back']
+    if case['tail']:
+        l += [SRC[case['tail']]]
+    if not case['var_first']:
+        l += ['Var\tequ $10']
+    core.put('a.asm', '\n'.join(l) + '\n')
+    o = core.run('asl', case['opt'] + ['a.asm'])
+    d = '%s | asl %s' % (' / '.join(x.strip() for x in l[2:]), ' '.join(case['opt']))
+    ck = core.crashkind(o)
+    if ck:
+        return core.R(False, ck, 'crash/' + ck, '%s on %s' % (ck, d))
+    ch = o.err.decode('latin-1')
+    heads = [x for x in re.split(r'[\r\n]', ch) if x.startswith('> > > a.asm(')]
+    nw = sum(1 for x in heads if 'warning:' in x)
+    ne = len(heads) - nw
+    out = o.out.decode('latin-1')
+    me = re.search(r'(\d+) errors?', out)
+    se = int(me.group(1)) if me else (ne if '-q' in case['opt'] else None)
+    p = core.get('a.p') is not None
+    sig = 'branch-distance/%s'
+    if (o.rc == 0) != (ne == 0):
+        return core.R(False, 'rc', sig % 'rc-vs-reported', 'exit status %s with %d error(s) reported on %s' % (o.rc, ne, d))
+    if o.rc not in (0, 2):
+        return core.R(False, 'rc', sig % 'rc-value', 'exit status %s on %s' % (o.rc, d))
+    if p != (o.rc == 0):
+        return core.R(False, 'codefile', sig % 'codefile', 'exit status %s, code file exists=%s on %s' % (o.rc, p, d))
+    if se != ne:
+        return core.R(False, 'summary-err', sig % 'summary', 'summary says %s errors, %d reported on %s' % (se, ne, d))
+    return core.R(True, 'j-rc%d' % o.rc, nontrivial=True, states=['j|%d|%d|%d' % (o.rc, ne, nw)])
 
 
 def describe(case):
@@ -117,6 +171,8 @@ def evaluate(case):
         return ev_hist(case)
     if case['k'] == 'n':
         return ev_count(case)
+    if case['k'] == 'j':
+        return ev_j(case)
     return ev_files(case)
 
 
@@ -186,16 +242,26 @@ def ev_count(case):
     return core.R(True, 'count-ok', nontrivial=N > 0, states=['N%d%s' % (N, kind)])
 
 
-FSRC = {'clean': '\tcpu 8080\n\tnop\n', 'warn': '\tcpu 8080\n\twarning "w"\n\tnop\n', 'fail': '\tcpu 8080\n\tfoo\n\tnop\n', 'fatal': '\tcpu 8080\n\tfatal "f"\n'}
+FSRC = {'clean': '\tcpu 8080\n\tnop\n', 'warn': '\tcpu 8080\n\twarning "w"\n\tnop\n', 'fail': '\tcpu 8080\n\tfoo\n\tnop\n', 'fatal': '\tcpu 8080\n\tfatal "f"\n',
+        # a genuine, final branch error / an error-free source that needs another pass because a label moves / a macro using SHIFT
+        'jfail': '\tcpu 6811\n\torg $8000\nback:\tnop\n\trept 100\n\tldd $1234\n\tendm\n\tbeq back\n',
+        'repass': '\tcpu 6811\n\torg $8000\n\tldd Var\nlab:\tnop\n\tjmp lab\nVar\tequ $10\n',
+        'shift': '\tcpu 8080\nm\tmacro a,b\n\tshift\n\tdb a\n\tendm\n\tm 1,2\n'}
 
 
 def ev_files(case):
     names = []
     for i, k in enumerate(case['files']):
         n = 'f%d' % i
-        core.put(n + '.asm', FSRC[k])
+        core.put(n + '.asm', FSRC[k] + ('\tdb %d\n' % (0xe0 + i) if k != 'fatal' else ''))      # every source ends in a byte of its own
         names.append(n + '.asm')
     opt = ['-Werror'] if case['werr'] else []
+    om = case.get('o', 'none')
+    nout = {'none': 0, 'first': 1, 'all': len(names)}[om]
+    outn = ['out%d.p' % i for i in range(nout)]
+    for x in outn:
+        opt += ['-o', x]
+    outn += ['f%d.p' % i for i in range(nout, len(names))]
     o = core.run('asl', opt + ['-q'] + names)
     ck = core.crashkind(o)
     d = 'asl %s %s' % (' '.join(opt), ' '.join(case['files']))
@@ -208,14 +274,28 @@ def ev_files(case):
             rc = 3
             exp.append(False)
             break
-        bad = k == 'fail' or (k == 'warn' and case['werr'])
+        bad = k in ('fail', 'jfail') or (k == 'warn' and case['werr'])
         if bad:
             rc = 2
         exp.append(not bad)
     if o.rc != rc:
         return core.R(False, 'rc', 'files/rc', 'exit status %s, model %s on %s' % (o.rc, rc, d))
     for i, want in enumerate(exp):
-        have = core.get('f%d.p' % i) is not None
+        got = core.get(outn[i])
+        have = got is not None
         if have != want:
-            return core.R(False, 'codefile', 'files/codefile', 'f%d.p exists=%s, model %s on %s' % (i, have, want, d))
+            return core.R(False, 'codefile', 'files/codefile', '%s exists=%s, model %s on %s' % (outn[i], have, want, d))
+        if have and not got.rstrip(b'\0').split(b'\0\0')[0] or have and bytes([0xe0 + i]) not in got:
+            return core.R(False, 'codefile', 'files/codefile-content', '%s does not hold the code of source %d on %s' % (outn[i], i, d))
+        if have:
+            try:
+                recs = [r for r in pfile.data_records(pfile.read(got))]
+            except Exception as e:
+                return core.R(False, 'codefile', 'files/codefile-unreadable', '%s: %r on %s' % (outn[i], e, d))
+            if not recs or recs[-1].data[-1] != 0xe0 + i:
+                return core.R(False, 'codefile', 'files/codefile-content', '%s does not end in the last byte of source %d on %s' % (outn[i], i, d))
+    import os
+    stray = sorted(x for x in os.listdir(core.workdir()) if not x.endswith('.asm') and x not in outn and not x.startswith('.'))
+    if stray:
+        return core.R(False, 'codefile', 'files/stray-output', 'unexpected files %s on %s' % (stray, d))
     return core.R(True, 'files-rc%d' % rc, states=['F' + '|'.join(case['files'])])
